@@ -29,3 +29,11 @@ Proof.
   - apply Forall_forall. intros l Hin. apply in_map_iff in Hin. destruct Hin as (b & <- & _).
     rewrite firstn_length, ecc_block_length; rewrite ?repeat_length; cbn [length]; lia.
 Qed.
+
+(* ... and it is total on vectors of the right length *)
+Theorem encode_error_total s d : length d = N.to_nat (num_data_codewords s) -> exists e, encode_error s d = Ok e.
+Proof.
+  intros L. unfold encode_error.
+  replace (len d =? num_data_codewords s)%N with true by (symmetry; apply N.eqb_eq; unfold len; lia). cbn [negb].
+  destruct (generator_spec s) as (gt & Hg & _). rewrite Hg. eexists. reflexivity.
+Qed.
